@@ -41,18 +41,14 @@ Theorem C08_line : forall o inp ss st,
 Proof. intros o inp ss st Ho. exact (scan_line o inp ss st (in_driver_supported o Ho)). Qed.
 Print Assumptions C08_line.
 
-(** clause 1, termination half. Full statement wanted (DESIGN 4 C08, [C08_total]):
-      forall o inp, In o gen_scan_opts -> scan o inp <> OutOfFuel /\ scan o inp <> Panic
-    with fuel [fuel_of inp = 2*|inp|+8] (a *depth* bound: every loop iteration and every nested
-    BEGIN-block scanner gets its caller's fuel minus one; the progress lemma is "each iteration
-    consumes a byte or returns"). Proved here: the fuel is never exhausted. Missing for the full
-    statement: [scan o inp <> Panic] (every checked slice stays in bounds) — not proved yet; it is
-    covered by the tie only (Go panics are recovered and compared with the model's [Panic] on
-    every case, exhaustively for all strings of length <= 5 over the 12-symbol alphabet). *)
-Theorem C08_total_partial : forall o inp,
-  In o gen_scan_opts -> scan o inp <> OutOfFuel.
-Proof. intros o inp Ho. exact (scan_terminates o inp (in_driver_supported o Ho)). Qed.
-Print Assumptions C08_total_partial.
+(** clause 1: the scanner terminates and does not crash. [fuel_of inp = 2*|inp|+8] is a *depth*
+    bound (every loop iteration and every nested BEGIN-block scanner gets its caller's fuel minus
+    one; progress lemma: each iteration consumes a byte or returns); [Panic] is what any Go slice
+    or index expression out of range would produce. The result is therefore [Ok] or [Err]. *)
+Theorem C08_total : forall o inp,
+  In o gen_scan_opts -> scan o inp <> OutOfFuel /\ scan o inp <> Panic.
+Proof. intros o inp Ho. exact (scan_total o inp (in_driver_supported o Ho)). Qed.
+Print Assumptions C08_total.
 
 (** the same three statements for *every* option set without GoCommand / MatchBeginTryCatch. *)
 Theorem C08_lossless_all_supported : forall o inp ss,
